@@ -101,6 +101,11 @@ def dec_val(ev, Empty):
     return Empty() if ev == BLANK else codec.dec(ev)
 
 
+def differ(a, b):
+    """strict comparison of normal forms: True is not 1, 'a' is not ['a']"""
+    return json.dumps(a, sort_keys=True) != json.dumps(b, sort_keys=True)
+
+
 def norm_enc(ev):
     return BLANK if ev == BLANK else norm(codec.dec(ev))
 
@@ -540,18 +545,18 @@ def run_history(env, hist, probes=None, want_trace=False):
             got = norm(observe(ex, titles, pr, qstyle, via, grids))
             base = norm(observe(plain, titles, pr, 'num'))
             res['evals'] += 1
-            if e != base or pr in edits:
+            if differ(e, base) or pr in edits:
                 res['nontrivial'] += 1
             if want_trace:
                 res['trace'].append([si, list(pr), got])
             kind = None
-            if got != e:
+            if differ(got, e):
                 kind = 'differs_from_fresh_translation'
             if pr in edits:
-                if got != norm_enc(edits[pr]):
+                if differ(got, norm_enc(edits[pr])):
                     kind = 'overridden_cell_not_the_supplied_constant'
                     e = norm_enc(edits[pr])
-            elif not env.entry and not any(book.depends(pr, t) for t in edits) and got != base:
+            elif not env.entry and not any(book.depends(pr, t) for t in edits) and differ(got, base):
                 kind = 'unrelated_cell_changed'
                 e = base
             if kind:
@@ -1217,7 +1222,7 @@ def _hashseed_compare(wb, hist, seeds):
                 continue
             for (si, pr, got), (_, _, want) in zip(tr, ex):
                 evals += 1
-                if got != want:
+                if differ(got, want):
                     key = 'C04.hashseed.trace_differs_from_fresh_translation'
                     if key in seen:
                         continue
